@@ -49,14 +49,15 @@ theorem acc_leaf : ∀ (c : T) (par : Option Vec), (∀ pv, par = some pv → Se
       simp only [sub, Option.some.injEq, T.node.injEq] at h
       obtain ⟨h1, _, _⟩ := h
       subst h1
-      simp only [upA, upAL, upS, acctran, acctranL, A.get, Option.some.injEq] at hg
-      exact ⟨par, hpar, hg.symm⟩
+      simp only [upA, upAL, upS, acctran, A.get, Option.some.injEq] at hg
+      exact ⟨none, (fun _ e => by cases e), hg.symm⟩
     | [], _, _, i :: q, h, _ => simp [sub, subL] at h
     | x :: xs, _, _, [], h, _ => simp [sub] at h
     | x :: xs, ih, hl, i :: q, h, hg =>
       rw [leaves_node_cons] at hl
       simp only [sub] at h
-      simp only [upA, acctran, A.get] at hg
+      rw [acctran_upA_cons] at hg
+      simp only [A.get] at hg
       have hVU01 : Set01 k (upS k tv (.node d0 p0 (x :: xs))) :=
         fun j hj => upS_le_one k tv _ (by intro n hn; rw [leaves_node_cons] at hn; exact hl n hn) j hj
       refine acc_leaf_list k tv (x :: xs) ih hl _ ?_ i q d pp vec h hg
@@ -66,6 +67,42 @@ theorem acc_leaf : ∀ (c : T) (par : Option Vec), (∀ pv, par = some pv → Se
       match par with
       | none => exact hVU01
       | some q' => exact inter_01 k _ _ hVU01
+
+/- since fix a20daad ACCTRAN never rewrites a leaf -/
+theorem acctran_leaf_list : ∀ (ks : Kids),
+    (∀ et ∈ ks, ∀ (par : Option Vec) (p : List Nat) (d : NodeD) (pp : Nat), sub et.2 p = some (.node d pp []) →
+      (acctran k par (upA k tv et.2)).sub p = some (.node (tv d.name) [])) →
+    ∀ (par : Option Vec) (i : Nat) (p : List Nat) (d : NodeD) (pp : Nat), subL ks i p = some (.node d pp []) →
+    A.subL (acctranL k par (upAL k tv ks)) i p = some (.node (tv d.name) [])
+  | [], _, _, _, _, _, _, h => by simp [subL] at h
+  | (e, c) :: r, ih, par, 0, p, d, pp, h => by
+    simp only [subL] at h
+    simp only [upAL, acctranL, A.subL]
+    exact ih (e, c) (List.mem_cons_self ..) par p d pp h
+  | (e, c) :: r, ih, par, i + 1, p, d, pp, h => by
+    simp only [subL] at h
+    simp only [upAL, acctranL, A.subL]
+    exact acctran_leaf_list r (fun et het => ih et (List.mem_cons_of_mem _ het)) par i p d pp h
+
+theorem acctran_leaf_sub : ∀ (c : T) (par : Option Vec) (p : List Nat) (d : NodeD) (pp : Nat),
+    sub c p = some (.node d pp []) → (acctran k par (upA k tv c)).sub p = some (.node (tv d.name) []) := by
+  intro c
+  induction c using T.induct with
+  | h d0 p0 ks ih =>
+    intro par p d pp h
+    match ks, ih, p, h with
+    | [], _, [], h =>
+      simp only [sub, Option.some.injEq, T.node.injEq] at h
+      obtain ⟨h1, _, _⟩ := h
+      subst h1
+      rw [acctran_upA_leaf]; simp [A.sub]
+    | [], _, i :: q, h => simp [sub, subL] at h
+    | x :: xs, _, [], h => simp [sub] at h
+    | x :: xs, ih, i :: q, h =>
+      simp only [sub] at h
+      rw [acctran_upA_cons]
+      simp only [A.sub]
+      exact acctran_leaf_list k tv (x :: xs) ih _ i q d pp h
 
 /-- a one-state tip is not altered by the intersection step -/
 theorem inter_single_tip (s pv : Vec) (x : Nat) (hx : IsSingle k s x) (hs01 : Set01 k s) (hpv : Set01 k pv)
